@@ -118,7 +118,10 @@
 //     injective rendering of the value, the zero value (`T{}`, `var x T`) is
 //     "", `==` is equality of renderings; `(Option String)` for an interface:
 //     `none` is nil, `some t` a value whose dynamic type prints as `t` —
-//     and methods called on them are opaque calls;
+//     and methods called on them are opaque calls; a key "[]pkg.T" declares the
+//     *slice* type (`"[]net/netip.Prefix": "(List Unit)"`: such a slice is
+//     known by its length only, `len` is the list's length) while T itself
+//     stays abstract;
 //   - a keyed literal `T{f: v}` / `&T{f: v}` of a translated struct type is a
 //     structure instance (`some …` for `&`), omitted fields are zero; the
 //     given fields are evaluated in the order of the literal; fields of abstract
@@ -582,6 +585,12 @@ func (t *translator) leanTypeC(ty types.Type) string {
 		}
 		return ""
 	case *types.Slice:
+		if n, ok := types.Unalias(u.Elem()).(*types.Named); ok && n.Obj().Pkg() != nil {
+			// a slice type declared symbolic ("[]net/netip.Prefix": "(List Unit)")
+			if s := t.symb["[]"+n.Obj().Pkg().Path()+"."+n.Obj().Name()]; s != "" {
+				return s
+			}
+		}
 		// byte buffers are written through aliases (Read, Unpack, append on a
 		// pooled buffer): they are abstract objects, not list values
 		if b, ok := u.Elem().Underlying().(*types.Basic); ok && b.Kind() == types.Uint8 && t.absBytes {
